@@ -445,3 +445,53 @@ fn c09_quantile_stats_merge() {
     assert!(a + Stats::default() == a && Stats::default() + a == a, "C09:quantile:default-neutral");
     assert!(Stats::new(n1) == a && a.clone() == a, "C09:quantile:new-copy");
 }
+
+// ------------------------------------------------------------------------------------------------ larger samples
+// Beyond 5 symbolic elements the sort does not finish in SAT. A sample of 20 elements is covered with CONCRETE scrambled data
+// (distinct values, so order statistics are known in closed form) and SYMBOLIC ranks / kinds handed over by the
+// ci_indices stub: every rank pair l <= h < 20 and every kind is decided; the data values themselves are fixed.
+// (48 concrete elements exceeded 900 s: the standard library switches sorting strategy above 20 elements.)
+const SCRAMBLED: [u16; 48] = [13, 7932, 15851, 23770, 31689, 39608, 47527, 55446, 63365, 5763, 13682, 21601, 29520, 37439, 45358, 53277, 61196, 3594, 11513, 19432, 27351, 35270, 43189, 51108, 59027, 1425, 9344, 17263, 25182, 33101, 41020, 48939, 56858, 64777, 7175, 15094, 23013, 30932, 38851, 46770, 54689, 62608, 5006, 12925, 20844, 28763, 36682, 44601];
+fn rank_of<const N: usize>(d: &[u16; N], v: u16) -> usize {
+    let mut r = 0;
+    let mut j = 0;
+    while j < N {
+        if d[j] < v {
+            r += 1;
+        }
+        j += 1;
+    }
+    r
+}
+fn large_case<const N: usize>(use_vec: bool) {
+    let mut d = [0u16; N];
+    let mut i = 0;
+    while i < N {
+        d[i] = SCRAMBLED[i];
+        i += 1;
+    }
+    let data = Prefix::<u16, N> { d, len: N };
+    let (l, h, err) = choose_indices(N);
+    kani::assume(!err);
+    let conf = any_conf();
+    let r = if use_vec { ci::<u16, _>(conf, &data, 0.5) } else { ci_max_size::<u16, _, N>(conf, &data, 0.5) };
+    let ok = match (&conf, &r) {
+        (Confidence::TwoSided(_), Ok(Interval::TwoSided(a, b))) => rank_of(&data.d, *a) == l && rank_of(&data.d, *b) == h,
+        (Confidence::UpperOneSided(_), Ok(Interval::UpperOneSided(a))) => rank_of(&data.d, *a) == l,
+        (Confidence::LowerOneSided(_), Ok(Interval::LowerOneSided(b))) => rank_of(&data.d, *b) == h,
+        _ => false,
+    };
+    assert!(ok, "C03:large-sample:order-statistics");
+}
+#[kani::proof]
+#[kani::unwind(22)]
+#[kani::stub(ci_indices, ci_indices_stub)]
+fn c03_large_sample_max_size_n20() {
+    large_case::<20>(false);
+}
+#[kani::proof]
+#[kani::unwind(22)]
+#[kani::stub(ci_indices, ci_indices_stub)]
+fn c03_large_sample_vec_n20() {
+    large_case::<20>(true);
+}
